@@ -233,6 +233,9 @@ def run(ctx):
   from . import C01
   C01.eigh_routine(ctx)
   C01.siblings(ctx)
+  # the error the gate sees is the error of the root that is stored (not of an intermediate of the same routine)
+  C01.provenance(ctx)
+  C01.lobpcg_path(ctx)
 
 
 def run_gate(ctx):
@@ -277,6 +280,9 @@ def run_gate(ctx):
         pass
   ctx.need('C03.G1', sites, 8, 'gated stores across modes/valuations')
   ctx.need('C03.G3', sentinel_paths, 3, 'non-refresh sentinel paths')
+  # what the gate falls back to is the stored value itself: the caller hands the stored statistics / preconditioners down unchanged
+  from . import C13
+  C13.caller_lists(ctx)
 
 
 def _unelem(t):
